@@ -430,6 +430,57 @@ def rule_g_no_entry_pairs_refused(ctx, fns):
     return n
 
 
+def rule_h_tof_mashing_preimage(ctx):
+    """`each detector pair with its TOF index is assigned to at most one bin, and the set a bin reports is exactly the set assigned to
+    it` under TOF mashing: get_bin_for_det_pos_pair assigns unmashed index u to round(u / m); the pre-image of mashed index k under
+    that map is the window centred on k*m, [k*m - m/2, k*m + m/2] (integer m/2).  get_all_det_pos_pairs_for_bin must list that
+    window: lower + upper == 2*k*m and upper - lower == 2*(m/2), symbolically (seed C01-6: consecutive groups counted from the lowest
+    timing position agree with it only when m divides the number of timing positions)."""
+    import sympy
+
+    RULE = "C01.h-tof-mashing-window-is-the-preimage"
+    u = ctx.ex.get(Request("src/buildblock/ProjDataInfoCylindricalNoArcCorr.cxx", fn=["stir::ProjDataInfoCylindricalNoArcCorr::get_all_det_pos_pairs_for_bin", "stir::ProjDataInfoCylindricalNoArcCorr::get_bin_for_det_pos_pair"], files=["/repo/src/buildblock/ProjDataInfoCylindricalNoArcCorr.cxx", "/repo/src/include/stir/ProjDataInfoCylindricalNoArcCorr.inl"]))
+    if u is None:
+        return
+    lst = [f for f in u.functions if f.short == "get_all_det_pos_pairs_for_bin" and f.body is not None]
+    fwd = [f for f in u.functions if f.short == "get_bin_for_det_pos_pair" and f.body is not None]
+    if not lst or not fwd:
+        ctx.fail_broken("anchors get_all_det_pos_pairs_for_bin / get_bin_for_det_pos_pair not found")
+        return
+    # forward map: round(timing_pos / mash factor)
+    rounded = [m for m in fwd[0].walk() if m.is_call() and (m.callee or "").split("::")[-1] == "round" and "get_tof_mash_factor" in key(m, True) and "timing_pos" in key(m, True)]
+    if not rounded:
+        ctx.unrec(fwd[0].qn, "C01.h: the assignment of an unmashed TOF index to a TOF bin is not round(timing_pos / tof_mash_factor)")
+        return
+    f = lst[0]
+    alg = Algebra(f, names=False)
+    binp = [p for p in f.params if re.search(r"\bBin\b", p["t"])]
+    if not binp:
+        ctx.unrec(f.qn, "C01.h: no Bin parameter")
+        return
+    k = alg.sym("v%d.timing_pos_num()" % binp[0]["d"])
+    m_ = alg.sym("this.get_tof_mash_factor()")
+    # the window: the two locals assigned under the test of the `ignore non-spatial dimensions` flag, from expressions of k and m
+    flagp = [p for p in f.params if p["t"].strip() in ("const bool", "bool")]
+    cand = []
+    for g in f.walk():
+        if g.k == "IfStmt" and flagp and any(x.k == "DeclRefExpr" and x.get("d") == flagp[0]["d"] for x in g.c[0].walk()):
+            for a in g.c[1].walk():
+                if a.k == "BinaryOperator" and a.op == "=" and a.c[0].strip().k == "DeclRefExpr" and a.c[0].strip().get("dk") == "local":
+                    e = alg.expr(a.c[1])
+                    if e is not None and e.has(m_):
+                        cand.append((a, e))
+    if len(cand) != 2:
+        ctx.unrec(f.qn, "C01.h: the window of unmashed TOF indices of a bin was not recognised (%d assignments)" % len(cand))
+        return
+    (a1, e1), (a2, e2) = cand
+    half = sympy.Function("intdiv")(m_, 2)
+    centred = sympy.simplify(sympy.expand(e1 + e2 - 2 * k * m_)) == 0
+    width = sympy.simplify(sympy.expand(sympy.Abs(e2 - e1) - 2 * half)) == 0 or sympy.simplify(sympy.expand((e2 - e1) ** 2 - (2 * half) ** 2)) == 0
+    ok = bool(centred and width)
+    ctx.ob(RULE, f.qn, "window", ok, a1.where(), "the unmashed TOF indices listed for TOF bin k are [k*m - m/2, k*m + m/2], the pre-image of k under round(u/m)" if ok else "the unmashed TOF indices listed for TOF bin k are [%s, %s], not the window centred on k*m that round(u/m) assigns to k: a pair with its TOF index is then reported by no bin or by two, and the reported count differs from the assigned set" % (e1, e2))
+
+
 def run(ctx):
     ctx.explanation = (
         "Decides: (a) get_bin_for_det_pair (cylindrical and generic/blocks geometries) has exactly the two dual outcomes selected by the "
@@ -443,6 +494,8 @@ def run(ctx):
     )
     reqs = requests()
     ctx.ex.prefetch(reqs)
+    rule_h_tof_mashing_preimage(ctx)
+    ctx.require_count("C01.h-tof-mashing-window-is-the-preimage", 1)
     us = [ctx.ex.get(r) for r in reqs]
     if any(u is None for u in us):
         return
